@@ -244,9 +244,56 @@ def _expr_of_block(stmts, env, depth):
     return None
 
 
+def _structure_returns(stmts):
+    """`if c: ...; return` followed by more statements  ->  `if c: ... else: <the rest>` (early exits of a
+    procedure turned into nesting), recursively; None when a bare return sits somewhere else (in a loop, ...)"""
+    out = []
+    for i, st in enumerate(stmts):
+        if isinstance(st, ast.Return):
+            if st.value is not None:
+                return None
+            return out if out else [ast.Pass()]        # what follows is dead
+        if isinstance(st, ast.If):
+            has_ret = any(isinstance(n, ast.Return) for n in ast.walk(st))
+            if not has_ret:
+                out.append(st)
+                continue
+            rest = stmts[i + 1:]
+            body_ends = bool(st.body) and isinstance(st.body[-1], ast.Return) and st.body[-1].value is None
+            else_ends = bool(st.orelse) and isinstance(st.orelse[-1], ast.Return) and st.orelse[-1].value is None
+            if body_ends and not any(isinstance(n, ast.Return) for x in st.body[:-1] for n in ast.walk(x)) \
+                    and not any(isinstance(n, ast.Return) for x in st.orelse for n in ast.walk(x)):
+                tail = _structure_returns(list(st.orelse) + list(rest))
+                if tail is None:
+                    return None
+                new = ast.copy_location(ast.If(test=st.test, body=(st.body[:-1] or [ast.Pass()]), orelse=tail if tail != [ast.Pass()] or st.orelse else
+                                               ([] if not rest else tail)), st)
+                out.append(new)
+                return out
+            if else_ends and not any(isinstance(n, ast.Return) for x in st.orelse[:-1] for n in ast.walk(x)) \
+                    and not any(isinstance(n, ast.Return) for x in st.body for n in ast.walk(x)):
+                tail = _structure_returns(list(st.body) + list(rest))
+                if tail is None:
+                    return None
+                out.append(ast.copy_location(ast.If(test=st.test, body=tail, orelse=(st.orelse[:-1] or [])), st))
+                return out
+            return None
+        if any(isinstance(n, ast.Return) for n in ast.walk(st)):
+            return None
+        out.append(st)
+    return out
+
+
 def _stmt_form(fd):
-    """body usable as pasted statements: no `return <value>`, `return` only as the last statement"""
+    """body usable as pasted statements: no `return <value>`; bare early returns are turned into nesting"""
     b = _body(fd)
+    if any(isinstance(n, ast.Return) and n.value is None for st in b[:-1] for n in ast.walk(st)) or \
+            (b and not isinstance(b[-1], ast.Return) and any(isinstance(n, ast.Return) for n in ast.walk(b[-1]))):
+        if any(isinstance(n, ast.Return) and n.value is not None for st in b for n in ast.walk(st)):
+            return None
+        if any(isinstance(n, (ast.Yield, ast.YieldFrom, ast.Global, ast.Nonlocal)) for st in b for n in ast.walk(st)):
+            return None
+        return _structure_returns([_clone(x) for x in b])
     for i, st in enumerate(b):
         for n in ast.walk(st):
             if isinstance(n, ast.Return):
@@ -451,6 +498,183 @@ class StructNorm(ast.NodeTransformer):
         return [st]
 
 
+def baseline_attrs():
+    baseline()
+    p = os.path.join(VERIF, "spec", "baseline_names.json")
+    try:
+        with open(p) as f:
+            d = json.load(f).get("attrs", {})
+    except (OSError, ValueError):
+        return None
+    out = set()
+    for v in d.values():
+        out.update(v)
+    return out
+
+
+_PURE_CALLS = {"len", "int", "str", "max", "min", "abs", "bool", "float", "round"}
+
+
+class Evolve:
+    """Normalisations for code that was extended after the pinned commit without touching the specified behaviour:
+
+    * statistics: an attribute that did not exist at the pinned commit and that nothing reads except its own updates,
+      log lines and functions that did not exist either (accessors) cannot influence any behaviour the rules look at;
+      statements that only update such an attribute are dropped;
+    * `for x in (x for x in L if c)` is the loop `for x in L: if c: ...` (a generator expression filters lazily, in
+      iteration order)."""
+
+    def __init__(self, modname, tree, path=None):
+        self.modname, self.tree, self.path = modname, tree, path
+        self.base_fn = baseline().get(modname)
+        self.count = 0
+
+    def run(self):
+        self.gen_loops()
+        if self.base_fn is not None:
+            self.statistics()
+        if self.count:
+            ast.fix_missing_locations(self.tree)
+        return self.count
+
+    # -- generator-expression loops
+    def gen_loops(self):
+        # `g = (x for x in L if c)` bound once and consumed by exactly one `for` right in the same block
+        for fd in [n for n in ast.walk(self.tree) if isinstance(n, ast.FunctionDef)]:
+            for blk in [n for n in ast.walk(fd) if isinstance(getattr(n, "body", None), list)]:
+                body = blk.body
+                i = 0
+                while i + 1 < len(body):
+                    a, b = body[i], body[i + 1]
+                    if isinstance(a, ast.Assign) and len(a.targets) == 1 and isinstance(a.targets[0], ast.Name) \
+                            and isinstance(a.value, ast.GeneratorExp) and isinstance(b, ast.For) \
+                            and isinstance(b.iter, ast.Name) and b.iter.id == a.targets[0].id:
+                        nm = a.targets[0].id
+                        uses = sum(1 for x in ast.walk(fd) if isinstance(x, ast.Name) and x.id == nm)
+                        if uses == 2:
+                            b.iter = a.value
+                            del body[i]
+                            self.count += 1
+                            continue
+                    i += 1
+        for n in ast.walk(self.tree):
+            if isinstance(n, ast.For) and isinstance(n.iter, ast.GeneratorExp) and len(n.iter.generators) == 1 \
+                    and not n.orelse:
+                g = n.iter.generators[0]
+                if g.is_async or not isinstance(n.iter.elt, ast.Name) or not isinstance(g.target, ast.Name) \
+                        or n.iter.elt.id != g.target.id or not isinstance(n.target, ast.Name):
+                    continue
+                # rename the generator's variable to the loop's
+                conds = [_Sub({g.target.id: ast.Name(id=n.target.id, ctx=ast.Load())}).visit(_clone(c)) for c in g.ifs]
+                n.iter = g.iter
+                if conds:
+                    test = conds[0] if len(conds) == 1 else ast.BoolOp(op=ast.And(), values=conds)
+                    n.body = [ast.copy_location(ast.If(test=test, body=n.body, orelse=[]), n)]
+                self.count += 1
+
+    # -- statistics attributes
+    def statistics(self):
+        import re
+        battrs = baseline_attrs()
+        if battrs is None:
+            return
+        stored = {}
+        for n in ast.walk(self.tree):
+            if isinstance(n, ast.Attribute) and isinstance(n.ctx, ast.Store) and n.attr not in battrs:
+                stored.setdefault(n.attr, []).append(n)
+        if not stored:
+            return
+        sib = ""
+        if self.path:
+            d = os.path.dirname(self.path)
+            try:
+                for fn in os.listdir(d):
+                    if fn.endswith(".py") and os.path.join(d, fn) != self.path:
+                        with open(os.path.join(d, fn), "r", encoding="utf-8", errors="replace") as f:
+                            sib += f.read() + "\n"
+            except OSError:
+                sib = ""
+        parents = {}
+        for n in ast.walk(self.tree):
+            for c in ast.iter_child_nodes(n):
+                parents[id(c)] = n
+
+        def enclosing(n, kinds):
+            q = parents.get(id(n))
+            while q is not None:
+                if isinstance(q, kinds):
+                    return q
+                q = parents.get(id(q))
+            return None
+        dead = set()
+        for a in stored:
+            if re.search(r"\b%s\b" % re.escape(a), sib):
+                continue
+            ok = True
+            for n in ast.walk(self.tree):
+                if isinstance(n, ast.Attribute) and n.attr == a and isinstance(n.ctx, ast.Load):
+                    st = enclosing(n, (ast.stmt,))
+                    fd = enclosing(n, (ast.FunctionDef,))
+                    if isinstance(st, ast.AugAssign) and isinstance(st.target, ast.Attribute) and st.target.attr == a:
+                        continue
+                    if isinstance(st, ast.Assign) and all(isinstance(t, ast.Attribute) and t.attr == a for t in st.targets):
+                        continue        # x.a = max(0, x.a - 1) style self update
+                    call = enclosing(n, (ast.Call,))
+                    in_log = False
+                    q = call
+                    while q is not None:
+                        if isinstance(q, ast.Call) and ast.unparse(q.func).startswith(("log.", "logging.")):
+                            in_log = True
+                        q = enclosing(q, (ast.Call,))
+                    if in_log:
+                        continue
+                    if fd is not None and fd.name not in self.base_fn and not (fd.name.startswith("__") and fd.name.endswith("__")):
+                        continue
+                    ok = False
+                    break
+            if ok:
+                dead.add(a)
+        if not dead:
+            return
+
+        def pure(v):
+            for x in ast.walk(v):
+                if isinstance(x, ast.Call) and ast.unparse(x.func) not in _PURE_CALLS:
+                    return False
+                if isinstance(x, (ast.Yield, ast.Await, ast.NamedExpr)):
+                    return False
+            return True
+
+        def prune(body):
+            out = []
+            for st in body:
+                for fld in ("body", "orelse", "finalbody"):
+                    b = getattr(st, fld, None)
+                    if isinstance(b, list) and b and isinstance(b[0], ast.stmt):
+                        nb = prune(b)
+                        if fld == "body" and not nb:
+                            nb = [ast.Pass()]
+                        setattr(st, fld, nb)
+                if isinstance(st, ast.Try):
+                    for h in st.handlers:
+                        h.body = prune(h.body) or [ast.Pass()]
+                drop = False
+                if isinstance(st, ast.AugAssign) and isinstance(st.target, ast.Attribute) and st.target.attr in dead and pure(st.value):
+                    drop = True
+                if isinstance(st, ast.Assign) and st.targets and all(isinstance(t, ast.Attribute) and t.attr in dead for t in st.targets) \
+                        and pure(st.value):
+                    drop = True
+                if drop:
+                    self.count += 1
+                    continue
+                out.append(st)
+            return out
+        for n in ast.walk(self.tree):
+            if isinstance(n, (ast.FunctionDef, ast.ClassDef, ast.Module)):
+                nb = prune(n.body)
+                n.body = nb if nb else [ast.Pass()]
+
+
 class Inliner:
     def __init__(self, modname, tree, path=None):
         self.path = path
@@ -538,7 +762,7 @@ class Inliner:
         for st in fd.body:
             if isinstance(st, ast.Assign) and len(st.targets) == 1 and isinstance(st.targets[0], ast.Name) \
                     and isinstance(st.value, ast.Attribute) and isinstance(st.value.value, ast.Name) \
-                    and st.value.value.id == "self":
+                    and (st.value.value.id == "self" or (st.value.value.id in params and stores.get(st.value.value.id, 0) == 0)):
                 nm = st.targets[0].id
                 if stores.get(nm) == 1 and nm not in params and nm not in (self.base or ()):
                     attr = st.value.attr
@@ -643,6 +867,63 @@ class Inliner:
                             for s in b:
                                 out.append(_Sub(m).visit(_clone(s)))
                             continue
+                if isinstance(st, ast.Assign) and isinstance(st.value, ast.Call):
+                    # `x = helper(...)` / `a, b = helper(...)`: the helper's statements, then the assignment of what
+                    # its single trailing `return` yields (helper locals that clash with the caller's are renamed)
+                    t = self.target(st.value)
+                    if t is not None and t[0] is not fd:
+                        h, skip = t
+                        hb = _body(h)
+                        rets = [n for s_ in hb for n in ast.walk(s_) if isinstance(n, ast.Return)]
+                        bad = any(isinstance(n, (ast.Yield, ast.YieldFrom, ast.Global, ast.Nonlocal, ast.FunctionDef, ast.Lambda))
+                                  for s_ in hb for n in ast.walk(s_))
+                        if hb and not bad and len(rets) == 1 and rets[0] is hb[-1] and rets[0].value is not None \
+                                and _expr_form(h) is None:
+                            m = _bind(h, st.value, skip)
+                            if m is not None:
+                                hlocals = {n.id for s_ in hb for n in ast.walk(s_) if isinstance(n, ast.Name)
+                                           and isinstance(n.ctx, (ast.Store, ast.Del))}
+                                used = {n.id for n in ast.walk(fd) if isinstance(n, ast.Name)} | \
+                                       {a.arg for a in fd.args.args}
+                                # `(a, b) = helper()` where the helper ends in `return (a, b)`: same names, no renaming
+                                def names_of(e):
+                                    if isinstance(e, ast.Name):
+                                        return [e.id]
+                                    if isinstance(e, (ast.Tuple, ast.List)) and all(isinstance(x, ast.Name) for x in e.elts):
+                                        return [x.id for x in e.elts]
+                                    return None
+                                same = len(st.targets) == 1 and names_of(st.targets[0]) is not None and \
+                                    names_of(st.targets[0]) == names_of(hb[-1].value)
+                                keep = set(names_of(hb[-1].value)) if same else set()
+                                # the caller must not use those names before the call (they would be overwritten earlier)
+                                if same:
+                                    for nm in keep:
+                                        for n_ in ast.walk(fd):
+                                            if isinstance(n_, ast.Name) and n_.id == nm and getattr(n_, "lineno", 10**9) < st.lineno:
+                                                same = False
+                                    if not same:
+                                        keep = set()
+                                ren = {}
+                                for nm in hlocals - keep:
+                                    if nm in used:
+                                        k = 1
+                                        while "%s_h%d" % (nm, k) in used | hlocals:
+                                            k += 1
+                                        ren[nm] = "%s_h%d" % (nm, k)
+
+                                class Ren(ast.NodeTransformer):
+                                    def visit_Name(self_, n_):
+                                        if n_.id in ren:
+                                            return ast.copy_location(ast.Name(id=ren[n_.id], ctx=n_.ctx), n_)
+                                        return n_
+                                self.count += 1
+                                fd._inlined_into = True
+                                for s_ in hb[:-1]:
+                                    out.append(_Sub(m).visit(Ren().visit(_clone(s_))))
+                                if not same:
+                                    val = _Sub(m).visit(Ren().visit(_clone(hb[-1].value)))
+                                    out.append(ast.copy_location(ast.Assign(targets=st.targets, value=val), st))
+                                continue
                 if isinstance(st, ast.Return) and isinstance(st.value, ast.Call):
                     # `return helper(...)`: executing the helper's body in place, its returns become the caller's
                     t = self.target(st.value)
